@@ -169,6 +169,7 @@ class Replayer(object):
                     np.random.seed(int(ev['s']))
                 elif e == 'GlobalDraw':
                     np.random.random_sample(3)
+                    np.random.normal()          # leaves a cached Gaussian behind: part of the generator state a caller can observe
                 elif e == 'ToDict':
                     m = self.objs[ev['o']]
                     shape = 'ToDict(%s)' % b.life(m)
